@@ -112,17 +112,29 @@ class Run:
             f.write(blob)
         return path
 
-    def _confirm(self, path):
-        """Replay twice in fresh processes: the same signature must come back both times."""
-        outs = []
-        for _ in range(2):
+    def _confirm_many(self, paths):
+        """Replay each file twice in fresh processes (all replays run concurrently): returns {path: [out1, out2]}."""
+        procs = []
+        for path in paths:
+            for _ in range(2):
+                try:
+                    p = subprocess.Popen([sys.executable, "-m", "efmc.replay", path, "--json"], cwd=VERIF,
+                                         stdout=subprocess.PIPE, stderr=subprocess.DEVNULL, text=True,
+                                         env=dict(os.environ, PYTHONPATH=VERIF, PYTHONHASHSEED="0"))
+                    procs.append((path, p))
+                except Exception as e:  # noqa
+                    procs.append((path, None))
+        outs = {path: [] for path in paths}
+        for path, p in procs:
+            if p is None:
+                outs[path].append("<replay could not start>")
+                continue
             try:
-                p = subprocess.run([sys.executable, "-m", "efmc.replay", path, "--json"], cwd=VERIF,
-                                   capture_output=True, text=True, timeout=600,
-                                   env=dict(os.environ, PYTHONPATH=VERIF, PYTHONHASHSEED="0"))
-                outs.append(p.stdout.strip().splitlines()[-1] if p.stdout.strip() else f"<no output rc={p.returncode}>")
+                out, _ = p.communicate(timeout=900)
+                outs[path].append(out.strip().splitlines()[-1] if out.strip() else f"<no output rc={p.returncode}>")
             except Exception as e:  # noqa
-                outs.append(f"<replay failed: {e}>")
+                p.kill()
+                outs[path].append(f"<replay failed: {e}>")
         return outs
 
     def finish(self, coverage, assumptions=None, level="model_checking", confirm=True):
@@ -140,24 +152,32 @@ class Run:
                   f"[{h['count']} occurrences in this run]")
         nondet = False
         reported = []
+        # determinism is proved on the (at most) MAX_CONFIRM smallest counterexamples: each is replayed twice in fresh
+        # processes and must give the same signature both times; a divergence is a hard error, never a VIOLATION
+        max_confirm = int(os.environ.get("EFMC_MAX_CONFIRM", "3"))
+        paths = {}
         for e in new:
-            path = self._write_replay(e["sig"], e["first"])
-            if confirm and e["first"].get("task") is not None:
-                outs = self._confirm(path)
+            paths[id(e)] = self._write_replay(e["sig"], e["first"])
+        to_confirm = [e for e in new if confirm and e["first"].get("task") is not None][:max_confirm]
+        outs = self._confirm_many([paths[id(e)] for e in to_confirm]) if to_confirm else {}
+        for e in new:
+            path = paths[id(e)]
+            if path in outs:
                 want = json.dumps(jsonable(e["sig"]), sort_keys=True)
                 got = []
-                for o in outs:
+                for o in outs[path]:
                     try:
-                        got.append(want in [json.dumps(s, sort_keys=True) for s in json.loads(o)["signatures"]])
+                        got.append(want in [json.dumps(s_, sort_keys=True) for s_ in json.loads(o)["signatures"]])
                     except Exception:
                         got.append(None)
                 if got != [True, True]:
                     nondet = True
-                    print(f"NONDETERMINISM property={self.prop} replay={path} confirmations={outs}")
+                    print(f"NONDETERMINISM property={self.prop} replay={path} confirmations={outs[path]}")
                     continue
             print(f"VIOLATION property={self.prop} replay={path}")
             print(f"  signature={json.dumps(jsonable(e['sig']), sort_keys=True)} occurrences={e['count']}")
-            reported.append({"signature": e["sig"], "occurrences": e["count"], "replay": path})
+            reported.append({"signature": e["sig"], "occurrences": e["count"], "replay": path,
+                             "replayed_twice": path in outs})
             rc = 1
         if nondet and rc == 0:
             rc = 2
